@@ -379,6 +379,21 @@ func pItems(tier string) []proto.Item {
 		}
 	}
 	items = append(items, RouterThenDestination(300, 31)...)
+	// a ROUTER answers a UDP probe with a destination-unreachable (net / host unreachable, administratively prohibited): an
+	// answered hop, not the destination - the list goes on to the real destination
+	for _, v := range proto.Variants {
+		vi := proto.Info(v)
+		if vi.Kind != "udp4" && vi.Kind != "udp6" {
+			continue
+		}
+		for _, form := range []string{"duHost", "duAdmin"} {
+			for _, t := range []int{1, 2} {
+				s := proto.Scn{Variant: v, First: 1, Last: 5, Dest: 4, IPIDBase: 300, EchoBase: 31, TimeoutMs: 300, DelayMs: 10}
+				s.Hops = map[int]proto.HopSpec{t: {Form: form}}
+				items = append(items, proto.Item{Scn: s, Class: fmt.Sprintf("%s/router-answers-%s", v, form), Note: map[string]string{"want_len": "4"}})
+			}
+		}
+	}
 	// SACK probes overtaking each other / lost on the way to the target, around the 2^32 wrap: the list still ends at the
 	// lowest TTL the destination answered (5)
 	items = append(items, c05.ForwardReorder(tier, 300, 31)...)
